@@ -40,6 +40,29 @@ def gen_probs(r, w):
 	return [[cols[j][i] for j in range(w)] for i in range(4)]
 
 
+def track_array(v, a=None, b=None):
+	"""float64 array (NaN = no data) of a track given per position or run-length
+	encoded as {'length': L, 'rle': [[start, end, value], ...]}."""
+	if isinstance(v, dict):
+		a = 0 if a is None else max(0, a)
+		b = v["length"] if b is None else min(v["length"], b)
+		out = numpy.full(max(0, b - a), numpy.nan)
+		for s_, e_, val in v["rle"]:
+			lo, hi = max(s_, a), min(e_, b)
+			if lo < hi:
+				out[lo - a:hi - a] = numpy.nan if val is None else val
+		return out
+	seg = v[a:b] if (a is not None or b is not None) else v
+	return numpy.array([numpy.nan if x is None else x for x in seg], dtype="float64")
+
+
+def track_plus_one(v):
+	if isinstance(v, dict):
+		return {"length": v["length"], "rle": [[s_, e_, None if val is None else val + 1.0]
+			for s_, e_, val in v["rle"]]}
+	return [None if x is None else x + 1.0 for x in v]
+
+
 class C16(runner.Check):
 	prop_id = "C16"
 	level = "exploration"
@@ -122,6 +145,8 @@ class C16(runner.Check):
 					"byte"], [4, 3, 3, 2]), "pick": f.random()}
 			return case
 		# loci world
+		if r.chance(0.012):
+			return self._gen_bigcov(r, S, seed)
 		n_chr = r.randint(1, 4)
 		chroms = []
 		for i in range(n_chr):
@@ -225,6 +250,42 @@ class C16(runner.Check):
 		return {"leg": "loci", "seed": seed, "chroms": chroms, "signals": signals,
 			"in_signals": in_signals, "sets": sets, "kw": kw, "combos": combos,
 			"single_set_unwrapped": len(sets) == 1 and r.chance(0.5)}
+
+	def _gen_bigcov(self, r, S, seed):
+		"""One long chromosome with genome-scale coverage: the cumulative signal
+		exceeds 2**24 (float32's integer range) long before its end, while every
+		window sum stays small and exact.  Count thresholds sit exactly on the sum of
+		one locus (a tie keeps the locus)."""
+		L = r.randint(250000, 350000)
+		rs = numpy.random.RandomState(r.subseed())
+		seq = "".join(numpy.array(list("ACGT"))[rs.randint(0, 4, size=L)].tolist())
+		cov = float(r.choice([64, 101, 127]))
+		rle = [[0, L, cov]]
+		for _ in range(r.randint(0, 5)):
+			p = r.randint(0, L - 100)
+			rle.append([p, p + r.randint(1, 80), cov + float(r.randint(1, 9))])
+		signals = [{"chrBig": {"length": L, "rle": rle}}]
+		in_w, out_w = r.randint(2, 40), r.randint(2, 60)
+		rows = []
+		for _ in range(r.randint(3, 8)):
+			mid = r.randint(int(L * 0.6), L - 200)
+			rows.append(["chrBig", mid - 2, mid + 3])
+		kw = {"in_window": in_w, "out_window": out_w, "max_jitter": 0, "chroms": None,
+			"n_loci": None, "min_counts": None, "max_counts": None, "target_idx": 0}
+		# threshold exactly equal to the window sum of the first locus
+		mid = rows[0][1] + (rows[0][2] - rows[0][1]) // 2
+		a, b = mid - out_w // 2, mid + out_w // 2 + out_w % 2
+		tot = float(numpy.nan_to_num(track_array(signals[0]["chrBig"], a, b)).sum())
+		kw[r.choice(["min_counts", "max_counts"])] = tot
+		b_ = S("schedule")
+		combos = [{"seq": b_.choice(["fasta", "dict"]), "sig": "dict", "insig": "dict",
+			"loci": ["df"], "fasta_width": 60, "extra_cols": False, "chroms_as": "list",
+			"verbose": False}, {"seq": "dict", "sig": "bigwig", "insig": "dict",
+			"loci": ["bed"], "fasta_width": 60, "extra_cols": False, "chroms_as": "list",
+			"verbose": False}]
+		return {"leg": "loci", "seed": seed, "chroms": [{"name": "chrBig", "seq": seq}],
+			"signals": signals, "in_signals": None, "sets": [rows], "kw": kw,
+			"combos": combos, "single_set_unwrapped": False, "bigcov": True}
 
 	def run_case(self, case):
 		if case["leg"] in ("meme", "meme_trunc"):
@@ -416,9 +477,7 @@ class C16(runner.Check):
 		hw_in, hw_out = in_w // 2, (out_w // 2 if have_sig else 0)
 		cands = []
 		def arr(track, name, a, b):
-			v = numpy.array([0.0 if x is None else x for x in track[name][a:b]],
-				dtype="float32")
-			return v
+			return numpy.nan_to_num(track_array(track[name], a, b)).astype("float32")
 		for _, (name, s, e) in order:
 			seq = chrom[name]
 			L = len(seq)
@@ -469,8 +528,7 @@ class C16(runner.Check):
 				return None
 			outl = []
 			for ti, t in enumerate(ts):
-				arrs = {n: numpy.array([numpy.nan if x is None else x for x in v],
-					dtype="float32") for n, v in t.items()}
+				arrs = {n: track_array(v).astype("float32") for n, v in t.items()}
 				if kind == "bigwig":
 					p = os.path.join(scratch, "%s.%s%d.bw" % (tag, label, ti))
 					genome.write_bigwig(p, sizes, arrs)
@@ -582,7 +640,7 @@ class C16(runner.Check):
 			case2 = copy.deepcopy(case)
 			for t in case2["signals"]:
 				for name in t:
-					t[name] = [None if v is None else v + 1.0 for v in t[name]]
+					t[name] = track_plus_one(t[name])
 			if case2["kw"]["min_counts"] is not None or case2["kw"]["max_counts"] is not None:
 				case2["kw"]["min_counts"] = case2["kw"]["max_counts"] = None
 			kw2 = case2["kw"]
